@@ -55,6 +55,23 @@ Proof. vm_compute. repeat split; reflexivity. Qed.
 Lemma ob_socks_port : socks5_default_port = b "1080".
 Proof. vm_compute. reflexivity. Qed.
 
+(* net/http of the toolchain that builds the harness; config.go *)
+Lemma ob_transport_socks : transport_socks_schemes = [b "socks5"; b "socks5h"].
+Proof. vm_compute. reflexivity. Qed.
+Lemma ob_transport_ports :
+  assoc (b "http") transport_port_map = Some (b "80") /\ assoc (b "https") transport_port_map = Some (b "443") /\
+  assoc (b "socks5") transport_port_map = Some socks5_default_port.
+Proof. vm_compute. repeat split; reflexivity. Qed.
+Lemma ob_stdlib_shapes : stdlib_shapes_checked = true.
+Proof. vm_compute. reflexivity. Qed.
+(* every scheme config.go accepts for the static upstream is handled by connect's switch and is a proxy type
+   of the statement; its port must be a number; the configuration is validated when the proxy is built *)
+Lemma ob_static_upstream_validated :
+  forallb (fun s => match connect_handler s, ptype_of_scheme s with Some _, Some _ => true | _, _ => false end)
+          upstream_supported_schemes = true /\
+  upstream_port_validated = true /\ upstream_validated_at_construction = true /\ upstream_pac_exclusive = true.
+Proof. vm_compute. repeat split; reflexivity. Qed.
+
 (* net.go and wiring *)
 Lemma ob_redirect_shape :
   redirect_shape_first_match = true /\ dialer_redirects_every_dial = true /\ connect_to_wired = true.
